@@ -14,3 +14,19 @@ package compile
 //@   ensures(idrange) err == nil ==> (1 <= src.ID || options.allowNegativeIDs)
 //@   ensures(name) err == nil ==> result.Name == src.Name
 //@   ensures(fresh) err == nil ==> fresh(result)
+
+//@ contract compileEnum
+//@   props C09
+//@   requires src != nil
+//@   loop 1: invariant -1 <= ridx && ridx < len(src.Items)
+//@   loop 1: invariant len(items) == ridx + 1
+//@   loop 1: invariant ridx >= 0 ==> int64(items[ridx].Value) == int64(prev)
+//@   loop 1: invariant ridx == -1 ==> prev == -1
+//@   loop 1: invariant forall(k, 0, ridx + 1, src.Items[k] != nil && (src.Items[k].Value != nil ==> int64(items[k].Value) == int64(*src.Items[k].Value)))
+//@   loop 1: invariant forall(k, 1, ridx + 1, src.Items[k].Value == nil ==> int64(items[k].Value) == int64(items[k-1].Value) + 1)
+//@   loop 1: invariant ridx >= 0 && src.Items[0].Value == nil ==> items[0].Value == 0
+//@   loop 1: decreases len(src.Items) - ridx
+//@   ensures(count) err == nil ==> len(result.Items) == len(src.Items)
+//@   ensures(explicit) err == nil ==> forall(k, 0, len(src.Items), src.Items[k].Value != nil ==> int64(result.Items[k].Value) == int64(*src.Items[k].Value))
+//@   ensures(implicit) err == nil ==> forall(k, 1, len(src.Items), src.Items[k].Value == nil ==> int64(result.Items[k].Value) == int64(result.Items[k-1].Value) + 1)
+//@   ensures(first) err == nil && len(src.Items) > 0 && src.Items[0].Value == nil ==> result.Items[0].Value == 0
